@@ -51,6 +51,13 @@ def main():
         elif lines:
             verdict = "VIOLATION-with-replay"
         results[sid] = {"property": prop, "verdict": verdict, "exit": p.returncode, "seconds": round(time.time() - t0), "lines": lines[:3]}
+        # keep the replay the check produced next to the seed
+        import re
+        for l in lines:
+            m = re.search(r"replay=(\S+)", l)
+            if m and os.path.exists(m.group(1)) and "no-failing-input-found" not in l:
+                shutil.copy(m.group(1), os.path.join(d, "detected_replay.txt"))
+                break
         print("%-7s %-4s %-34s %4ds" % (sid, prop, verdict, time.time() - t0), flush=True)
         shutil.rmtree(scratch, ignore_errors=True)
         # drop the scratch-specific caches (mirrored Coq tree, private crates, target dirs)
